@@ -319,10 +319,11 @@ def gen_text(rng, lib_paths=(), std=True, exports=None):
     if k == "random":
         return k, random_utf8(rng)
     if k == "big":
-        # a document well beyond one pipe buffer (64 KiB), valid or broken at the very end
-        unit = gen_simple(rng, lib_paths, exports).replace("let ", "let big@_")
-        parts = [unit.replace("@", str(i)) for i in range(max(2, 70000 // max(1, len(unit))))]
-        return k, "".join(parts)[:90000] + (rng.choice(["", "let x = ;", "\"unterminated"]))
+        # a document well beyond one pipe buffer (64 KiB) whose bulk is cheap to analyse (comment lines): the point is the transport,
+        # not the analyser's speed - the harness's 30 s hang bound must never be reached by honest work
+        body = gen_simple(rng, lib_paths, exports)
+        filler = "".join("// filler line %d %s\n" % (i, "x" * 60) for i in range(1000))
+        return k, filler[:70000] + body + (rng.choice(["", "let x = ;", "\"unterminated"]))
     return k, rng.choice(["", "\n", " ", "\r\n\r\n", "//"])
 
 
